@@ -69,7 +69,10 @@ Start ==
 RootOf(PP) == PP.ptype
 Do(op, arg, r, adv, inner) ==
   /\ P' = r.P /\ prevErr' = P.err /\ steps' = steps + 1
-  /\ last' = [adv |-> adv, ret |-> r.ret, cbs |-> Len(r.evs), moved |-> r.hi - P.used, inner |-> inner, fresh |-> TRUE]
+  \* bytes the call ADVANCED over: the net movement of the cursor (after a lookup's rewind); when the call
+  \* ends in an error the cursor is meaningless and the high-water mark is used instead
+  /\ last' = [adv |-> adv, ret |-> r.ret, cbs |-> Len(r.evs),
+              moved |-> IF r.P.err = "NONE" THEN r.P.used - P.used ELSE r.hi - P.used, inner |-> inner, fresh |-> TRUE]
   /\ path' = path \o E!Pre(op, arg, E!BitI(r.ret)) \o " "
   /\ (EmitOn => PrintT(Line(path, Pred(op, arg, r, clean))))
   /\ UNCHANGED <<phase, buf, n, maxd, fill, clean>>
